@@ -15,6 +15,10 @@ import RoaringModel.SafeCodec
 import RoaringModel.Lemmas.SafeCodecLemmas
 import RoaringModel.SafeCompose
 import RoaringModel.Lemmas.SafeComposeLemmas
+import RoaringModel.SafeMulti
+import RoaringModel.Lemmas.SafeMultiLemmas
+import RoaringModel.SafeTreemapIter
+import RoaringModel.Lemmas.SafeTreemapIterLemmas
 /-!
 # C16 — public operations are total: only the documented panics (property theorems)
 
@@ -1008,5 +1012,210 @@ theorem C16_safe_multiops_merge (op : Store → Store → Store) (lhs rhs : List
   ⟨Multi.safe_mergeContainerOwned op rhs lhs, Multi.safe_mergeContainerRef op rhs cs⟩
 example : Multi.Safe_mergeContainerOwned Store.orAssignOwned exB [⟨1, .array [7]⟩, ⟨2, .array [9]⟩] :=
   (C16_safe_multiops_merge _ _ _ []).1
+
+end Roaring.C16
+
+/-! ## `treemap::Iter::advance_to` / `advance_back_to` (SafeTreemapIter.lean) -/
+namespace Roaring.C16
+open Roaring
+
+/-- **`treemap::Iter::advance_to(n)` / `advance_back_to(n)` (treemap/iter.rs:145-230) with
+    `BitmapIter::advance_to` / `advance_back_to` (:569-591)**, at EVERY iterator state (any `front` / `back` / untouched
+    range — no invariant is needed) and for every `n : u64`, over every inner 32-bit cursor `K`: `util::split(n)` is
+    lossless, and the four `BTreeMap::range` calls get well-ordered bounds — `range(last..last)` / `range(first..first)`
+    (`Included(x) .. Excluded(x)`: allowed, empty), `range(new_front_idx..=last)` with `new_front_idx ≤ last`,
+    `range(first..=new_back_idx)` with `first ≤ new_back_idx` — so std's "range start is greater than range end" /
+    "range start and end are equal and excluded" panics are unreachable.  (The 32-bit `advance_to(index)` the method
+    forwards to is outside the predicate, see SafeTreemapIter.lean.) -/
+theorem C16_safe_treemap_iter_advance {K : TIter.Inner} (it : TIter.Iter K) (n : Nat) (hn : n < 2^64) :
+    it.Safe_advanceTo n ∧ it.Safe_advanceBackTo n :=
+  ⟨TIter.Iter.safe_advanceTo it n hn, TIter.Iter.safe_advanceBackTo it n hn⟩
+/-- the fresh iterator over the three-partition treemap of C12, towards a key between two partitions, past the last
+    one, and before the first one -/
+example : (TIter.Iter.new (K := TIter.Inner.list) C12.tEx).Safe_advanceTo 12884901888
+    ∧ (TIter.Iter.new (K := TIter.Inner.list) C12.tEx).Safe_advanceTo 18446744073709551615
+    ∧ (TIter.Iter.new (K := TIter.Inner.list) C12.tEx).Safe_advanceBackTo 0 :=
+  ⟨(C16_safe_treemap_iter_advance _ _ (by decide)).1, (C16_safe_treemap_iter_advance _ _ (by decide)).1,
+   (C16_safe_treemap_iter_advance _ _ (by decide)).2⟩
+example : (TIter.Iter.new (K := TIter.Inner.list) C12.tEx).Safe_advanceTo 12884901888
+    ∧ (TIter.PIter.new C12.tEx).Safe_advanceTo 4294967295 ∧ (TIter.PIter.new C12.tEx).Safe_advanceBackTo 0 := by
+  decide +kernel
+/-- teeth: the conditions std checks — an inverted inclusive pair, equal excluded bounds — and an argument that is not
+    a `u64` -/
+example : ¬ TIter.Safe_btreeRange (.incl 5) (.incl 4) ∧ ¬ TIter.Safe_btreeRange (.excl 3) (.excl 3)
+    ∧ TIter.Safe_btreeRange (.incl 3) (.excl 3)
+    ∧ ¬ (TIter.Iter.new (K := TIter.Inner.list) C12.tEx).Safe_advanceTo 18446744073709551616 := by decide
+
+end Roaring.C16
+
+/-! ## Multi-operand merges (SafeMulti.lean) -/
+namespace Roaring.C16
+open Roaring Roaring.Multi Roaring.Spec
+
+/-! The store-level `|=` / `^=` INSIDE `merge_container_owned` / `merge_container_ref` (bitmap/multiops.rs:272-291,
+:388-425) and the loops calling them (`try_multi_or_owned/_ref`, `try_multi_xor_owned/_ref`, :208-270, :294-386), followed
+iteration by iteration on the accumulator the iterations before left.  That accumulator is NOT canonical — `array | array`
+is computed in a bitset store however small the result, `a ^ a` leaves an EMPTY bitset store — so the hypotheses of the
+step theorems are only the invariant the C09 proofs maintain for it: ascending keys below `2^16` and `Store.Inv` of every
+store (`Multi.Acc`).  The whole-function theorems start from well-formed operands (`Bitmap.WF`) and carry that invariant
+through every call.
+
+Running examples: `accEx` (an accumulator in the middle of a multi-op: key 0 holds the three values of `[1,2,3] | [2,3]`
+in a BITSET store, key 1 an EMPTY bitset store as `x ^ x` leaves it, key 4 a borrowed array), `exB` (well-formed, from
+above). -/
+
+/-- (for the examples only, as above) -/
+local instance (l : List Nat) : Decidable (Sorted l) := by unfold Sorted; infer_instance
+local instance (v : List Nat) : Decidable (Arr.Inv v) := by unfold Arr.Inv; infer_instance
+
+/-- chunk 0: a bitset store with 3 values; chunk 1: a bitset store with no value; chunk 4: an array — valid stores, none
+    of the first two canonical -/
+def accEx : List Container :=
+  [⟨0, .bitmap (Store.arrToBitmap [1, 2, 3])⟩, ⟨1, .bitmap BStore.new⟩, ⟨4, .array [7, 9]⟩]
+
+theorem accEx_keys : (accEx.map (·.key)).Pairwise (· < ·) := by decide
+
+theorem accEx_inv : ∀ c ∈ accEx, c.key < 65536 ∧ c.store.Inv := by
+  intro c hc
+  simp only [accEx, List.mem_cons, List.not_mem_nil, or_false] at hc
+  rcases hc with rfl | rfl | rfl
+  · exact ⟨by decide, (BStore.arrToBitmap_spec [1, 2, 3] ⟨by decide, by decide⟩).1⟩
+  · exact ⟨by decide, BStore.inv_new⟩
+  · exact ⟨by decide, by decide, by decide⟩
+
+/-- the accumulator invariant of the C09 proofs, in the vocabulary of `Inv.lean` -/
+theorem acc_of_inv {cs : List Container} (hk : (cs.map (·.key)).Pairwise (· < ·))
+    (hi : ∀ c ∈ cs, c.key < 65536 ∧ c.store.Inv) : Multi.Acc cs :=
+  ⟨hk, fun c hc => ⟨(hi c hc).1, (storeValid_iff_inv _).2 (hi c hc).2⟩⟩
+
+/-- **store level**: `recv |= arg` / `recv ^= arg` with a `Bitmap` receiver (store/mod.rs:287-327, :456-496 → the
+    `(Bitmap, Array)` arms bitmap_store.rs:648-657 / :692-703 and the `(Bitmap, Bitmap)` arms → `op_bitmaps` :634-640) —
+    the only form in which multiops.rs calls them — for ANY receiver and argument with the structural invariant, whatever
+    their cardinalities: `self.bits[key]`, `1 << bit`, `self.len += (old_w ^ new_w) >> bit`, the `i64` counter of `^=`
+    (`self.len as i64`, `len += 1 - 2 * …` never negative, `len as u64`), `bits1.len += count_ones`. -/
+theorem C16_safe_multiops_storeOp (k : MergeOp) (recv : BStore) (hr : recv.Inv) (arg : Store) (ha : arg.Inv) :
+    Safe_storeOp k recv arg := safe_storeOp k recv hr arg ((storeValid_iff_inv _).2 ha)
+/-- an EMPTY bitset receiver (what `x ^ x` leaves) `^=` an array, `|=` a full bitset -/
+example : Safe_storeOp .xor BStore.new (.array [5, 65535]) ∧ Safe_storeOp .or BStore.new (.bitmap BStore.full) :=
+  ⟨C16_safe_multiops_storeOp _ _ BStore.inv_new _ ⟨by decide, by decide⟩,
+   C16_safe_multiops_storeOp _ _ BStore.inv_new _ BStore.inv_full⟩
+example : Safe_storeOp .xor BStore.new (.array [5, 65535]) := by decide +kernel
+/-- teeth: a receiver whose cached length is wrong — `^=` drives the `i64` counter below zero, `|=` overflows `len +=` -/
+example : ¬ Safe_storeOp .xor { len := 0, bits := List.replicate 1024 wMax } (.array [5])
+    ∧ ¬ Safe_storeOp .or { len := wMax, bits := BStore.zeros } (.array [5]) := by decide +kernel
+
+/-- **`merge_container_owned` (multiops.rs:272-291)** on EVERY accumulator with the invariant and every right-hand side
+    with valid stores (any order, repeated keys allowed): at every iteration `lhs.insert(loc, rhs)` / `&mut lhs[loc]`,
+    and in the `Ok(loc)` arm `lhs.store.to_bitmap()` (`ArrayStore::to_bitmap_store`: `bits[key(index)] |= 1 << bit(index)`
+    and the debug `try_from(len, bits).unwrap()`), then the store-level `op` on the promoted / swapped / unchanged bitset
+    receiver (`C16_safe_multiops_storeOp`) — each on the `lhs` that the iterations before produced. -/
+theorem C16_safe_multiops_mergeOwned (k : MergeOp) (lhs rhs : List Container)
+    (hk : (lhs.map (·.key)).Pairwise (· < ·)) (hl : ∀ c ∈ lhs, c.key < 65536 ∧ c.store.Inv)
+    (hr : ∀ r ∈ rhs, r.key < 65536 ∧ r.store.Inv) : Safe_mergeOwned k lhs rhs :=
+  safe_mergeOwned k rhs lhs (acc_of_inv hk hl) (fun r h => ⟨(hr r h).1, (storeValid_iff_inv _).2 (hr r h).2⟩)
+/-- all five arms: bitset–array (key 0), bitset–bitset on the empty bitset (key 1), insert (key 3), array–bitset with
+    the swap (key 4), and array–array with the promotion (key 4 of a second right-hand side after an insert at key 5) -/
+example : Safe_mergeOwned .xor accEx [⟨0, .array [2, 8]⟩, ⟨1, .bitmap BStore.full⟩, ⟨3, .array [1]⟩, ⟨4, .bitmap BStore.full⟩]
+    ∧ Safe_mergeOwned .or accEx [⟨5, .array [1]⟩, ⟨5, .array [1, 2]⟩, ⟨4, .array [8]⟩] := by
+  refine ⟨C16_safe_multiops_mergeOwned _ _ _ accEx_keys accEx_inv ?_, C16_safe_multiops_mergeOwned _ _ _ accEx_keys accEx_inv ?_⟩
+  · intro r hr
+    simp only [List.mem_cons, List.not_mem_nil, or_false] at hr
+    rcases hr with rfl | rfl | rfl | rfl
+    · exact ⟨by decide, by decide, by decide⟩
+    · exact ⟨by decide, BStore.inv_full⟩
+    · exact ⟨by decide, by decide, by decide⟩
+    · exact ⟨by decide, BStore.inv_full⟩
+  · intro r hr
+    simp only [List.mem_cons, List.not_mem_nil, or_false] at hr
+    rcases hr with rfl | rfl | rfl <;> exact ⟨by decide, by decide, by decide⟩
+/-- the predicate is evaluable: `[1,2,3] ^ [1,2,3]` (promotion, then an empty bitset store) `^ [5]` -/
+example : Safe_mergeOwned .xor [⟨0, .array [1, 2, 3]⟩] [⟨0, .array [1, 2, 3]⟩, ⟨0, .array [5]⟩] := by decide +kernel
+/-- teeth: an accumulator entry that is not sorted fails the debug `try_from(len, bits).unwrap()` of the promotion
+    (`len = 3`, two distinct bits); one with a wrong cached length fails in the store-level `^=` -/
+example : ¬ Safe_mergeOwned .or [⟨0, .array [2, 2, 3]⟩] [⟨0, .array [7]⟩]
+    ∧ ¬ Safe_mergeOwned .xor [⟨0, .bitmap { len := 0, bits := List.replicate 1024 wMax }⟩] [⟨0, .array [7]⟩] := by
+  decide +kernel
+
+/-- it refines the indexing-only predicate of `SafeCompose.lean` (`C16_safe_multiops_merge`): same loop, same states -/
+theorem C16_safe_multiops_mergeOwned_refines (k : MergeOp) : ∀ (rhs lhs : List Container),
+    Safe_mergeOwned k lhs rhs → Safe_mergeContainerOwned k.owned lhs rhs
+  | [], _, _ => trivial
+  | r :: rs, lhs, h => by
+    unfold Safe_mergeOwned at h
+    unfold Safe_mergeContainerOwned
+    exact ⟨h.1, C16_safe_multiops_mergeOwned_refines k rs _ h.2.2⟩
+
+/-- **`merge_container_ref` (multiops.rs:388-425)** on every `Vec<Cow<Container>>` whose underlying containers have the
+    invariant: `containers.insert(loc, Cow::Borrowed(rhs))` / `&mut containers[loc]`, and in the `Ok(loc)` arm
+    `lhs.store.to_bitmap()` + `op(&mut store, &rhs.store)` (:406-407), `rhs.store.clone()` + `op(&mut store, &lhs.store)`
+    (:412-413), `op(&mut lhs.to_mut().store, &rhs.store)` (:419). -/
+theorem C16_safe_multiops_mergeRef (k : MergeOp) (cs : List Cow) (rhs : List Container)
+    (hk : ((cs.map Cow.get).map (·.key)).Pairwise (· < ·)) (hl : ∀ c ∈ cs.map Cow.get, c.key < 65536 ∧ c.store.Inv)
+    (hr : ∀ r ∈ rhs, r.key < 65536 ∧ r.store.Inv) : Safe_mergeRef k cs rhs :=
+  safe_mergeRef k rhs cs (acc_of_inv hk hl) (fun r h => ⟨(hr r h).1, (storeValid_iff_inv _).2 (hr r h).2⟩)
+example : Safe_mergeRef .or (accEx.map Cow.borrowed) [⟨0, .array [2, 8]⟩, ⟨4, .array [8]⟩, ⟨4, .bitmap BStore.full⟩] := by
+  refine C16_safe_multiops_mergeRef _ _ _ ?_ ?_ ?_
+  · rw [map_get_map_borrowed]; exact accEx_keys
+  · rw [map_get_map_borrowed]; exact accEx_inv
+  · intro r hr
+    simp only [List.mem_cons, List.not_mem_nil, or_false] at hr
+    rcases hr with rfl | rfl | rfl
+    · exact ⟨by decide, by decide, by decide⟩
+    · exact ⟨by decide, by decide, by decide⟩
+    · exact ⟨by decide, BStore.inv_full⟩
+example : Safe_mergeRef .xor [.borrowed ⟨0, .array [1, 2, 3]⟩] [⟨0, .array [1, 2, 3]⟩, ⟨0, .array [5]⟩] := by decide +kernel
+example : ¬ Safe_mergeRef .or [.borrowed ⟨0, .array [2, 2, 3]⟩] [⟨0, .array [7]⟩] := by decide +kernel
+
+/-- **`MultiOps::union`** — `try_multi_or_owned` (multiops.rs:208-244) and `try_multi_or_ref` (:294-345) as a whole, for
+    `Result` items, every `size_hint`, every permutation the unstable sort may produce, all `Ok` operands well-formed:
+    every `merge_container_*` call of the loop over the operands on the accumulator the calls before left (which is no
+    longer a well-formed bitmap after the first one), and `ensure_correct_store` (container.rs:177-190) on every
+    non-empty container of the final accumulator.  An `Err` item ends the function (`?`); nothing is evaluated after. -/
+theorem C16_safe_multiops_union (sort : List Bitmap → List Bitmap) (hs : ∀ l, (sort l).Perm l) (h : Hint) {ε : Type}
+    (xs : List (Except ε Bitmap)) (hwf : ∀ b ∈ okValues xs, Bitmap.WF b) :
+    Safe_tryMultiOrOwnedWith sort h xs ∧ Safe_tryMultiOrRefWith sort h xs :=
+  ⟨safe_tryMultiOrOwnedWith hs h xs hwf, safe_tryMultiOrRefWith hs h xs hwf⟩
+
+/-- three well-formed operands: `exB`, a bitmap sharing key 0 (array–array promotion, then bitset–array) and key 2
+    (bitset–array on the full bitset), and `exB` again (bitset–array on the promoted store, bitset–bitset) -/
+def exOps : List (Except Nat Bitmap) :=
+  [.ok exB, .ok [⟨0, .array [2, 70]⟩, ⟨2, .array [9]⟩, ⟨3, .array [1]⟩], .ok exB]
+
+theorem exOps_wf : ∀ b ∈ okValues exOps, Bitmap.WF b := by
+  intro b hb
+  simp only [exOps, okValues, List.mem_cons, List.not_mem_nil, or_false] at hb
+  rcases hb with rfl | rfl | rfl
+  · exact exB_wf
+  · refine ⟨by decide, ?_⟩
+    intro c hc
+    simp only [List.mem_cons, List.not_mem_nil, or_false] at hc
+    rcases hc with rfl | rfl | rfl <;> exact ⟨by decide, ⟨by decide, by decide⟩, by decide, by decide⟩
+  · exact exB_wf
+
+example : Safe_tryMultiOrOwnedWith sortDesc .exact exOps ∧ Safe_tryMultiOrRefWith sortDesc (.upper 51) exOps :=
+  ⟨(C16_safe_multiops_union sortDesc sortDesc_isSortDesc.perm .exact exOps exOps_wf).1,
+   (C16_safe_multiops_union sortDesc sortDesc_isSortDesc.perm (.upper 51) exOps exOps_wf).2⟩
+/-- … evaluable, also with an `Err` item in the middle -/
+example : Safe_tryMultiOrRefWith sortDesc .exact
+    ([.ok [⟨0, .array [1, 2, 3]⟩], .ok [⟨0, .array [3, 4]⟩], .error 7, .ok [⟨0, .array [2, 2]⟩]] : List (Except Nat Bitmap)) := by
+  decide +kernel
+/-- teeth: an ill-formed operand (an unsorted array that gets promoted) -/
+example : ¬ Safe_tryMultiOrOwnedWith sortDesc .exact
+    ([.ok [⟨0, .array [2, 2, 3]⟩], .ok [⟨0, .array [7]⟩]] : List (Except Nat Bitmap)) := by decide +kernel
+
+/-- **`MultiOps::symmetric_difference`** — `try_multi_xor_owned` (multiops.rs:247-270) and `try_multi_xor_ref`
+    (:348-386) as a whole: as for the union; here the intermediate stores may also be EMPTY (`a ^ a`), which is where
+    the `i64` counter of `BitmapStore ^= &ArrayStore` starts from `0`. -/
+theorem C16_safe_multiops_symmetric_difference {ε : Type} (xs : List (Except ε Bitmap))
+    (hwf : ∀ b ∈ okValues xs, Bitmap.WF b) : Safe_tryMultiXorOwned xs ∧ Safe_tryMultiXorRef xs :=
+  ⟨safe_tryMultiXorOwned xs hwf, safe_tryMultiXorRef xs hwf⟩
+example : Safe_tryMultiXorOwned exOps ∧ Safe_tryMultiXorRef exOps := C16_safe_multiops_symmetric_difference exOps exOps_wf
+/-- `a ^ a ^ b`: the store of key 0 is an empty bitset store when `b` arrives -/
+example : Safe_tryMultiXorOwned
+    ([.ok [⟨0, .array [1, 2, 3]⟩], .ok [⟨0, .array [1, 2, 3]⟩], .ok [⟨0, .array [5]⟩]] : List (Except Nat Bitmap)) := by
+  decide +kernel
+example : ¬ Safe_tryMultiXorRef
+    ([.ok [⟨0, .bitmap { len := 0, bits := List.replicate 1024 wMax }⟩], .ok [⟨0, .array [7]⟩]] : List (Except Nat Bitmap)) := by
+  decide +kernel
 
 end Roaring.C16
